@@ -615,6 +615,12 @@ func cliPhase() {
 			key, desc, _ := strings.Cut(rest, " :: ")
 			seen[key]++
 			run.Violation("cli:"+key, "real command line: "+desc, map[string]any{"driver": "cmd/c01cli", "line": l})
+		case strings.HasPrefix(l, "CLI-TRANSIENT key="):
+			// failed once in the parallel pass, passed when run again on its own:
+			// recorded, not a verdict
+			key, _, _ := strings.Cut(strings.TrimPrefix(l, "CLI-TRANSIENT key="), " :: ")
+			run.Outcome("cli:failed-once-then-passed-alone:" + key)
+			run.Sample(map[string]any{"cli_transient": l})
 		case strings.HasPrefix(l, "CLI-DONE"):
 			done = true
 			var cases, commands, v int
